@@ -73,7 +73,7 @@ func (a1 jsonMultiset) diff(
 					Merge: true,
 				},
 				Path: path.clone(),
-				Add:  nodeList(n),
+				Add:  []JsonNode{n},
 			}
 		default:
 			e = DiffElement{
